@@ -290,7 +290,7 @@ pub fn nudge_float(v: &mut V, rng: &mut Rng) {
     }
 }
 
-const ATTRS: &[u8] = b"CPWSLXIQABZDYMNE";
+const ATTRS: &[u8] = b"CPWSLXIQABZDYMNE0123456789cx ";
 
 /// a descriptor that is NOT in any table but collides with a recognised one under a
 /// careless comparison: attribute with the same low byte / low 7 bits / other case /
